@@ -43,7 +43,7 @@ def rand_date(rng):
     return date.min + timedelta(days=rng.randrange((date.max - date.min).days + 1))
 
 
-def gen_header(rng):
+def gen_header(rng, big_padding=False):
     """a real LasHeader with boundary-heavy legal field values, plus the model's argument line"""
     import laspy
     from laspy.header import GlobalEncoding, LasHeader, Version
@@ -88,6 +88,9 @@ def gen_header(rng):
     h.number_of_evlrs = nevlr
     xh = c08.rand_bytes(rng, rng.choice([0, 0, 1, 7, 300, rng.randrange(301)]))
     xv = c08.rand_bytes(rng, rng.choice([0, 0, 1, 2, 300, rng.randrange(301)]))
+    if big_padding:
+        # more than 64 KiB between the header and the first point: the offset to point data needs its four bytes
+        xv = bytes([rng.getrandbits(8)]) * rng.choice([66000, 70000, 140000])
     h.extra_header_bytes = xh
     h.extra_vlr_bytes = xv
     recs = []
@@ -163,7 +166,7 @@ def codec_layer(ck, n_cases):
     lines, meta = [], []
     KEPT = []
     for ci in range(n_cases):
-        h, f = gen_header(ck.rng)
+        h, f = gen_header(ck.rng, big_padding=(ci in (len(FIXED_DATES), len(FIXED_DATES) + 1)))
         if ci < len(FIXED_DATES):
             # whatever the seed: the last day of leap years (day 366), leap days, first and last days
             f["date"] = FIXED_DATES[ci]
@@ -291,6 +294,48 @@ def codec_layer(ck, n_cases):
         if ci < 2:
             ck.sample({"header": inp["fields"]})
     return lines, meta
+
+
+def appender_inplace_layer(ck, n_cases):
+    """the in-place rewrite of the header by an append session: when the session's header no longer serialises to the size it has in the file
+    (the user dropped or added a VLR on appender.header), the rewrite is refused and the offset to point data in the file stays what it was"""
+    import laspy
+    from laspy.errors import LaspyException
+    from .. import fileio as fio
+    for ci in range(n_cases):
+        minor, fmt = fio.PAIRS[(3 * ci) % len(fio.PAIRS)]
+        vl = [("verif", 1, "first", b"a" * 40), ("verif", 2, "second", b"b" * 200)]
+        las = fio.make_las(ck.rng, minor, fmt, 3, vlrs=vl)
+        b0 = io.BytesIO()
+        las.write(b0)
+        data = b0.getvalue()
+        off0 = int.from_bytes(data[96:100], "little")
+        how = ["pop", "append", "untouched"][ci % 3]
+        inp = {"kind": "appender_inplace", "minor": minor, "fmt": fmt, "edit": how, "offset_to_point_data": off0}
+        ck.case(("appender_inplace", minor, fmt, how), nontrivial=True)
+        ck.count("appender_inplace:" + how)
+        buf = io.BytesIO(data)
+        outcome = "closed"
+        try:
+            ap = laspy.open(buf, mode="a", closefd=False)
+            if how == "pop":
+                ap.header.vlrs.pop()
+            elif how == "append":
+                ap.header.vlrs.append(laspy.VLR("verif", 3, "third", b"c" * 10))
+            ap.append_points(las.points[:1])
+            ap.close()
+        except LaspyException:
+            outcome = "refused"
+        except Exception as e:
+            outcome = type(e).__name__
+        off1 = int.from_bytes(buf.getvalue()[96:100], "little")
+        if off1 != off0:
+            ck.fail(f"LAS 1.{minor}: an append session whose header lost / gained a VLR ({how}) rewrote the header in place and changed the offset to point data "
+                    f"from {off0} to {off1} (session outcome: {outcome})", inp)
+        elif how != "untouched" and outcome == "closed":
+            ck.fail(f"LAS 1.{minor}: the in-place rewrite of a header that no longer has its size in the file ({how}) was not refused", inp)
+        elif how == "untouched" and outcome != "closed":
+            ck.fail(f"LAS 1.{minor}: an ordinary append session ended with {outcome}", inp)
 
 
 def malformed_layer(ck, n_cases):
@@ -543,6 +588,7 @@ def run(ck):
     q = ck.tier == "quick"
     l1, m1 = codec_layer(ck, 150 if q else 3000)
     l2, m2 = malformed_layer(ck, 150 if q else 3000)
+    appender_inplace_layer(ck, 9 if q else 90)
     out = ck.driver(l1 + l2)
     bad = None
     if out is None or len(out) != len(l1) + len(l2):
